@@ -536,6 +536,16 @@ static void observeVbk(const Registry& r, const VbkBlockTree& t, Obs& o, ObsMode
     std::string s = "VBK tips";
     for (auto& x : tips) s += " " + x;
     o.add(s);
+    // the VBK tree's own payload index (VTB id -> containing VBK blocks)
+    for (auto& kv : t.getPayloadsIndex().getAll()) {
+      auto it = r.names.find("id:" + vh::hex(kv.first.data(), kv.first.size()));
+      std::vector<std::string> bs;
+      for (auto& h : kv.second) bs.push_back(r.nameOf(h));
+      std::sort(bs.begin(), bs.end());
+      std::string l = "VBK pidx " + (it == r.names.end() ? "?" + vh::hex(kv.first) : it->second) + " ->";
+      for (auto& b : bs) l += " " + b;
+      if (!bs.empty()) o.add(l);
+    }
   }
   o.add("VBK best " + r.nameOf(t.getBestChain().tip()->getHash()));
 }
